@@ -681,16 +681,17 @@ func newColumn(t *TNode) (proto.Column, error) {
 			}
 		}
 		if strings.HasPrefix(t.CH, "Decimal(") {
-			// the width comes from the harness' own reading of the precision, not from the library's inference
+			// the width comes from the harness' own reading of the precision, not from the library's inference; a top-level
+			// column is given its spelled type afterwards (buildCols, proto.Alias)
 			switch t.W {
 			case 4:
-				return proto.Alias(new(proto.ColDecimal32), proto.ColumnType(t.CH)), nil
+				return new(proto.ColDecimal32), nil
 			case 8:
-				return proto.Alias(new(proto.ColDecimal64), proto.ColumnType(t.CH)), nil
+				return new(proto.ColDecimal64), nil
 			case 16:
-				return proto.Alias(new(proto.ColDecimal128), proto.ColumnType(t.CH)), nil
+				return new(proto.ColDecimal128), nil
 			case 32:
-				return proto.Alias(new(proto.ColDecimal256), proto.ColumnType(t.CH)), nil
+				return new(proto.ColDecimal256), nil
 			}
 		}
 	case "point":
